@@ -557,6 +557,9 @@ def run_parsed_mut(case, agg):
     agg.ok(h8("c08pm", name), "ok:parsed-object-mutation", sample={"seed": name, "leaves_switched": n})
 
 
+RULE += ". Further stages: " + 'object independence - for every enumeration class and every ordered pair of names, switching one decoded / built object leaves what a new object renders and encodes unchanged; every leaf of a parsed and a built envelope object switched, then the same bytes parsed again'
+
+
 def plan(tier):
     return [
         CaseStage("forward-and-back", forward_cases, run_forward, rule="every (space, name): name->code and code->name"),
